@@ -210,6 +210,9 @@ def terminates(stmts):
 
 def _flatten_atom(expr, pol, out):
     """Split a condition known to be ``pol`` into atoms known to hold."""
+    if isinstance(expr, ast.Call) and isinstance(expr.func, ast.Name) and expr.func.id == "bool" and len(expr.args) == 1 and not expr.keywords:
+        _flatten_atom(expr.args[0], pol, out)        # bool(x) as a condition is x
+        return
     if isinstance(expr, ast.UnaryOp) and isinstance(expr.op, ast.Not):
         _flatten_atom(expr.operand, not pol, out)
         return
